@@ -12,6 +12,10 @@ class SimKill(BaseException):
     pass
 
 
+class SimBlocked(BaseException):
+    """a simulated thread blocks for ever (put on a full bounded queue that only itself would drain)"""
+
+
 class SimSpin(BaseException):
     pass
 
@@ -99,6 +103,8 @@ class SimThread:
             pass
         except SimSpin:
             self.exc = 'SPIN'
+        except SimBlocked:
+            self.exc = 'BLOCKED-ON-A-FULL-QUEUE'
         except BaseException as ex:      # the thread died (e.g. KeyError in the job thread)
             self.exc = type(ex).__name__
             self.exc_text = str(ex)
@@ -130,8 +136,17 @@ class FakeQueue:
         self.waiter = None
         self.sim = Sim.active
         self.puts = 0
+        self.maxsize = maxsize or 0
 
     def put(self, item, block=True, timeout=None):
+        if self.maxsize > 0 and len(self.items) >= self.maxsize:
+            # a bounded queue that is full: a non-blocking put fails; a blocking put from the thread that is the only
+            # consumer never returns; from the application side it waits until the consumer runs (the token is pending anyway)
+            if not block:
+                raise _queue.Full()
+            if self.sim.current is not None:
+                raise SimBlocked()
+            return
         self.puts += 1
         self.items.append(item)
         w = self.waiter
